@@ -320,6 +320,19 @@ package regclient
 //@   in ~
 //@   infunc \)\.imageImportBlob$
 //@   requires probes-the-same-blob: r == old(caller.r) && d == old(caller.desc)
+// Import reads the archive in passes, for any order of its entries: a pass that registers a
+// handler for a further entry (trd.handlers[...] = ...) asks for another pass (trd.handleAdded),
+// because the entry may lie EARLIER in the archive than the manifest that names it. Ghost
+// $handlerRegistered: this invocation (its closures included) registered a handler.
+//@ ghost $handlerRegistered bool
+//@ func (*RegClient).imageImportOCIHandleManifest(ctx, r, m, trd, push, child) (err)
+//@   prop C09
+//@   entry-assume !$handlerRegistered
+//@   on-call mapupdate:handlers: $handlerRegistered = true
+//@   ensures another-pass-for-every-new-handler: err == nil && $handlerRegistered ==> trd.handleAdded
+//@ func (*RegClient).imageImportOCIHandleManifest{$1,$2,$3}
+//@   prop C09
+//@   on-call mapupdate:handlers: $handlerRegistered = true
 //@ ghost $tarReadOK bool
 //@ func (*RegClient).ImageImport(ctx, r, rs, opts) (err)
 //@   prop C09
